@@ -260,6 +260,25 @@ func (x *c18) flags(c *vsched.RunCtx) vsched.Stats {
 			judge(fmt.Sprintf("%s=%q", names[vi], s))
 		}
 	}
+	// neighbourhood of well-formed values: every string of length <= 2 over the alphabet put before,
+	// after and in the middle of realistic identifiers (plain, dashed, domain-scoped project ids)
+	var upTo2 []string
+	for _, s := range strs {
+		if len(s) <= 2 {
+			upTo2 = append(upTo2, s)
+		}
+	}
+	for vi, v := range vars {
+		for _, ex := range []string{"my-project", "example.com:my-project", "a.b:c", "inst_1", "db.v2"} {
+			for _, s := range upTo2 {
+				for _, cand := range []string{ex + s, s + ex, ex[:len(ex)/2] + s + ex[len(ex)/2:]} {
+					good()
+					*v = cand
+					judge(fmt.Sprintf("%s=%q", names[vi], cand))
+				}
+			}
+		}
+	}
 	for _, a := range short {
 		for _, b := range short {
 			for _, d := range short {
